@@ -39,6 +39,7 @@ import (
 	"github.com/Cloud-Foundations/keymaster/lib/pwauth/htpassword"
 	"github.com/Cloud-Foundations/keymaster/lib/pwauth/ldap"
 	"github.com/Cloud-Foundations/keymaster/lib/server/aws_identity_cert"
+	"github.com/Cloud-Foundations/keymaster/lib/simplestorage"
 	"github.com/Cloud-Foundations/keymaster/lib/vip"
 	"github.com/duo-labs/webauthn/webauthn"
 	"golang.org/x/crypto/openpgp"
@@ -628,7 +629,9 @@ func loadVerifyConfigFile(configFilename string,
 	}
 	if len(runtimeState.Config.Ldap.LDAPTargetURLs) > 0 {
 		const timeoutSecs = 3
-		pwdCache := &runtimeState
+		// Must be a nil interface (not a nil *RuntimeState inside a non-nil
+		// interface) when the cache is disabled.
+		var pwdCache simplestorage.SimpleStore = &runtimeState
 		if runtimeState.Config.Ldap.DisablePasswordCache {
 			pwdCache = nil
 		}
